@@ -1836,6 +1836,17 @@ class Interp:
             if r is not None:
                 return r
         a0 = args[0] if args else None
+        # `it.position(pred)`: Some(index of the first element satisfying pred) exactly when some element does
+        if last == "position" and len(args) == 2 and callee.endswith("Iterator::position") and (isinstance(core(args[1]), ClosureV) or self._is_fnitem(args[1])):
+            c0 = core(a0)
+            cl = core(args[1])
+            x_ = Sel(c0, "[]")
+            pv_ = self.call_closure(cl, [x_]) if isinstance(cl, ClosureV) else self.call_body(cl.path, self.crate.bodies[cl.path], [x_])
+            body = self.to_formula(pv_)
+            a_ = atom("any", c0.r(), F.show(body))
+            self.atom_vals[a_[1]] = (body, x_, args[0])
+            pos_ = CallV(inst or callee, [args[0], Via("closure-result", BoolV(body))], n, inst)
+            return PhiV([(a_, StructV("std::option::Option", "Some", {"0": Sel(pos_, "?")})), (Not(a_), StructV("std::option::Option", "None", {}))])
         # ---- predicates ----
         if is_bool and args:
             c0 = core(a0)
